@@ -35,7 +35,7 @@ def plan(tier, seed, rng, scale):
                 if tr == 'rc' and not rcmode:
                     continue
                 descs.append({'k': k, 'rc': rcmode, 'tr': tr, 'kind': 'multi', 'seed': rng.getrandbits(32)})
-    n = int((3000 if tier == 'quick' else 60000) * scale)
+    n = int((10000 if tier == 'quick' else 60000) * scale)
     kinds = ['random', 'multi', 'repeat', 'pal', 'rcrec', 'nend', 'len']
     for i in range(n):
         rcmode = rng.random() < 0.65
